@@ -177,9 +177,21 @@ func (u *c07Univ) sigBytes(signer int, msg []byte) []byte {
 	if err != nil {
 		panic(err)
 	}
-	b := s.ToBytes()
+	b := c07Raw(s)
 	u.sigMemo[key] = b
 	return b
+}
+
+// c07Raw: the bytes of the one individual signature in a single-signer signature object (the byte form of a
+// multi-signature as a whole frames each entry, which is not what an entry is restored from)
+func c07Raw(s hotstuff.QuorumSignature) []byte {
+	switch m := s.(type) {
+	case crypto.Multi[*crypto.ECDSASignature]:
+		return m[0].ToBytes()
+	case crypto.Multi[*crypto.EDDSASignature]:
+		return m[0].ToBytes()
+	}
+	return s.ToBytes()
 }
 
 // one requested entry of a multi-signature
@@ -435,6 +447,14 @@ type c07AggSpec struct {
 	View   uint64     `json:"v"`
 	Signed uint64     `json:"s,omitempty"` // relabel: the view the timeout messages really state
 	High   *c07QCSpec `json:"h,omitempty"` // the QC reported by replica 1 (the others report the genesis QC)
+	// split-* kinds: the set of reporting replicas (keys of the QC map) and the set of signers differ
+	//   split-junk       reporters 2..R+1 with their genuine signatures + random bytes labelled with other members
+	//   split-othermsg   ... + other members' genuine signatures of a timeout message for another view
+	//   split-rightmsg   ... + other members' genuine signatures of their own timeout message for this view (no report)
+	//   split-morereports  q+1 reports, genuine signatures of only q of them
+	//   split-diffsets   reports {1..q-1, q+1}, genuine signatures of {1..q}
+	Reporters int `json:"r,omitempty"` // R (default 1)
+	Total     int `json:"t,omitempty"` // number of signature entries (default q)
 }
 
 func (s c07AggSpec) String() string {
@@ -444,6 +464,9 @@ func (s c07AggSpec) String() string {
 	}
 	if s.Kind == "relabel" {
 		return fmt.Sprintf("agg.relabel(%d as %d%s)", s.Signed, s.View, h)
+	}
+	if strings.HasPrefix(s.Kind, "split-") {
+		return fmt.Sprintf("agg.%s(%d,r=%d,t=%d%s)", s.Kind, s.View, s.Reporters, s.Total, h)
 	}
 	return fmt.Sprintf("agg.%s(%d%s)", s.Kind, s.View, h)
 }
@@ -473,6 +496,83 @@ func (u *c07Univ) buildAgg(s c07AggSpec) (hotstuff.AggregateQC, []c07Contrib) {
 	altOf := func(i int) []byte {
 		return hotstuff.TimeoutMsg{ID: hotstuff.ID(i), View: hotstuff.View(signed + 1000), SyncInfo: hotstuff.NewSyncInfoWith(qcOf(i))}.ToBytes()
 	}
+	if strings.HasPrefix(s.Kind, "split-") {
+		// the first reporter carries the high QC, if any
+		first := 2
+		if s.Kind == "split-morereports" || s.Kind == "split-diffsets" {
+			first = 1
+		}
+		rq := func(i int) hotstuff.QuorumCert {
+			if i == first && s.High != nil {
+				return qcOf(1)
+			}
+			return gqc
+		}
+		rmsg := func(i int, v uint64) []byte {
+			return hotstuff.TimeoutMsg{ID: hotstuff.ID(i), View: hotstuff.View(v), SyncInfo: hotstuff.NewSyncInfoWith(rq(i))}.ToBytes()
+		}
+		qcs := map[hotstuff.ID]hotstuff.QuorumCert{}
+		var ps []c07Part
+		switch s.Kind {
+		case "split-morereports":
+			for i := 1; i <= u.q+1 && i <= u.n; i++ {
+				qcs[hotstuff.ID(i)] = rq(i)
+				if i <= u.q {
+					ps = append(ps, c07Part{i, i, rmsg(i, s.View)})
+				}
+			}
+		case "split-diffsets":
+			for i := 1; i <= u.q; i++ {
+				ps = append(ps, c07Part{i, i, rmsg(i, s.View)})
+				if i < u.q {
+					qcs[hotstuff.ID(i)] = rq(i)
+				}
+			}
+			qcs[hotstuff.ID(u.q+1)] = rq(u.q + 1)
+		default:
+			r := s.Reporters
+			if r < 1 {
+				r = 1
+			}
+			total := s.Total
+			if total < 1 {
+				total = u.q
+			}
+			for i := 2; i <= r+1; i++ {
+				qcs[hotstuff.ID(i)] = rq(i)
+				ps = append(ps, c07Part{i, i, rmsg(i, s.View)})
+			}
+			// the other entries are labelled with the members that did not report: r+2..n, then 1, then ids
+			// beyond the membership
+			var ids []int
+			for x := r + 2; x <= u.n; x++ {
+				ids = append(ids, x)
+			}
+			ids = append(ids, 1)
+			for x := u.n + 1; len(ids) < total; x++ {
+				ids = append(ids, x)
+			}
+			for _, id := range ids {
+				if len(ps) >= total {
+					break
+				}
+				switch s.Kind {
+				case "split-junk":
+					ps = append(ps, c07Part{id, 0, nil})
+				case "split-othermsg":
+					ps = append(ps, c07Part{id, c07Signer(u, id), rmsg(id, s.View+1000)})
+				case "split-rightmsg":
+					ps = append(ps, c07Part{id, c07Signer(u, id), rmsg(id, s.View)})
+				default:
+					panic("c07: unknown AggQC kind " + s.Kind)
+				}
+			}
+		}
+		sort.Slice(ps, func(a, b int) bool { return ps[a].label < ps[b].label })
+		sig, cs := u.multi(ps)
+		contribs = append(contribs, cs...)
+		return hotstuff.NewAggregateQC(qcs, sig, hotstuff.View(s.View)), contribs
+	}
 	ps, ok := u.pattern(kind, msgOf, altOf)
 	if !ok {
 		panic("c07: unknown AggQC kind " + s.Kind)
@@ -490,6 +590,14 @@ func (u *c07Univ) buildAgg(s c07AggSpec) (hotstuff.AggregateQC, []c07Contrib) {
 	sig, cs := u.multi(ps)
 	contribs = append(contribs, cs...)
 	return hotstuff.NewAggregateQC(qcs, sig, hotstuff.View(s.View)), contribs
+}
+
+// c07Signer: the key that signs for a claimed id (ids beyond the universe's keys are signed by the outsider)
+func c07Signer(u *c07Univ, id int) int {
+	if id > len(u.bases) {
+		return len(u.bases)
+	}
+	return id
 }
 
 // ---- sync info ----
@@ -678,10 +786,10 @@ func (s *c07Sender) Vote(hotstuff.ID, hotstuff.PartialCert) error { return s.fai
 func (s *c07Sender) Timeout(m hotstuff.TimeoutMsg) {
 	u := s.w.u
 	if m.ViewSignature != nil {
-		u.sigMemo[fmt.Sprintf("%d|%s", 1, m.View.ToBytes())] = m.ViewSignature.ToBytes()
+		u.sigMemo[fmt.Sprintf("%d|%s", 1, m.View.ToBytes())] = c07Raw(m.ViewSignature)
 	}
 	if m.MsgSignature != nil {
-		u.sigMemo[fmt.Sprintf("%d|%s", 1, m.ToBytes())] = m.MsgSignature.ToBytes()
+		u.sigMemo[fmt.Sprintf("%d|%s", 1, m.ToBytes())] = c07Raw(m.MsgSignature)
 	}
 }
 func (s *c07Sender) Propose(*hotstuff.ProposeMsg) {}
@@ -1466,6 +1574,11 @@ func c07AggCat(cv uint64, full bool) []*c07AggSpec {
 		&c07AggSpec{Kind: "relabel", View: cv, Signed: c07Sub(cv, 1)},
 		&c07AggSpec{Kind: "relabel", View: cv + 2, Signed: cv},
 		&c07AggSpec{Kind: "mismatch", View: cv},
+		&c07AggSpec{Kind: "split-junk", View: cv, Reporters: 1},
+		&c07AggSpec{Kind: "split-othermsg", View: cv, Reporters: 1},
+		&c07AggSpec{Kind: "split-rightmsg", View: cv, Reporters: 1},
+		&c07AggSpec{Kind: "split-morereports", View: cv},
+		&c07AggSpec{Kind: "split-diffsets", View: cv},
 	)
 	for _, k := range c07Patterns {
 		cat = append(cat, &c07AggSpec{Kind: k, View: cv})
@@ -2126,11 +2239,92 @@ func (r *c07Runner) boundaryBLS(search bool) {
 	}
 }
 
+// boundaryAgg: aggregate QCs in which the set of signers and the set of reporting replicas (the keys of the QC
+// map) differ — signers a strict superset of the reporters (the extra entries being random bytes, genuine
+// signatures of another message, or genuine signatures of the right message by members that did not report),
+// reporters a strict superset of the signers, and equally large but different sets — for every scheme of the
+// run, signature cache off and on, and both paths on which an aggregate QC is verified: sync infos (new-view,
+// timeout, replay) and proposals.  Fewer than a quorum of (signer, report) pairs verify in all of them.
+func (r *c07Runner) boundaryAgg() {
+	if !r.agg {
+		return
+	}
+	gqc := &c07QCSpec{Kind: "valid", Block: "G"}
+	type variant struct {
+		kind      string
+		reporters int
+		total     int
+	}
+	for _, opt := range []c07Opt{{}, {cache: 16}} {
+		for which := 0; which <= 1; which++ {
+			prefix := c07Prefix(true, which)
+			q, n := hotstuff.QuorumSize(r.u.nFull), r.u.nFull
+			var vs []variant
+			for _, k := range []string{"split-junk", "split-othermsg", "split-rightmsg"} {
+				vs = append(vs, variant{k, 1, q}, variant{k, q - 1, q}, variant{k, 1, n}, variant{k, q - 1, n + 1})
+			}
+			vs = append(vs, variant{"split-morereports", 0, 0}, variant{"split-diffsets", 0, 0})
+			for _, vr := range vs {
+				for _, dv := range []uint64{0, 3} {
+					w := r.freshO(prefix, opt)
+					cv := w.obs().view
+					hb := c07Blk(cv)
+					mk := func(high bool) *c07AggSpec {
+						a := &c07AggSpec{Kind: vr.kind, View: cv + dv, Reporters: vr.reporters, Total: vr.total}
+						if high {
+							a.High = &c07QCSpec{Kind: "valid", Block: hb}
+						}
+						return a
+					}
+					for _, s := range []c07Stim{
+						{Op: "newview", SI: &c07SISpec{Agg: mk(false)}},
+						{Op: "newview", SI: &c07SISpec{Agg: mk(false)}}, // replay (a cached verdict must be the same verdict)
+						{Op: "newview", SI: &c07SISpec{Agg: mk(true), TC: &c07TCSpec{Kind: "valid", View: c07Sub(cv, 1)}}},
+						{Op: "timeout", View: cv, From: 3, Sig: "ok", SI: &c07SISpec{QC: gqc, Agg: mk(true)}},
+						{Op: "propose", View: cv + 1, From: r.leader, Parent: hb, SI: &c07SISpec{QC: &c07QCSpec{Kind: "valid", Block: hb}, Agg: mk(true)}},
+						{Op: "adv", SI: &c07SISpec{Agg: mk(false), QC: gqc}},
+					} {
+						w.do(r.o, s)
+					}
+				}
+			}
+		}
+	}
+	r.o.v.Count("boundaryAgg:" + r.u.scheme)
+}
+
 func (r *c07Runner) leaderOf(opt c07Opt, v uint64) hotstuff.ID {
 	if opt.rot == "rr" {
 		return leaderrotation.ChooseRoundRobin(hotstuff.View(v), r.u.nFull)
 	}
 	return hotstuff.ID(r.leader)
+}
+
+// c07Sanity: the harness can only show something if the certificates it calls genuine are accepted by the
+// implementation (otherwise every stimulus is inert and the check is vacuously green — this happened when the
+// byte form of multi-signatures changed).  Not an oracle of the property: a failure makes the test fail, which
+// bin/check reports as a broken harness.
+func c07Sanity(u *c07Univ, agg bool) error {
+	w := c07NewWorld(u, agg, 2, c07Opt{stored: c07Stored, remote: c07Remote})
+	tc, _ := u.buildTC(c07TCSpec{Kind: "valid", View: 1})
+	if err := w.auth.VerifyTimeoutCert(tc); err != nil {
+		return fmt.Errorf("%s: genuine TC rejected: %v", u.scheme, err)
+	}
+	qc, _ := u.buildQC(c07QCSpec{Kind: "valid", Block: "b1"})
+	if err := w.auth.VerifyQuorumCert(qc); err != nil {
+		return fmt.Errorf("%s: genuine QC rejected: %v", u.scheme, err)
+	}
+	ag, _ := u.buildAgg(c07AggSpec{Kind: "valid", View: 1, High: &c07QCSpec{Kind: "valid", Block: "b1"}})
+	if _, err := w.auth.VerifyAggregateQC(ag); err != nil {
+		return fmt.Errorf("%s: genuine AggQC rejected: %v", u.scheme, err)
+	}
+	si := hotstuff.NewSyncInfoWith(tc)
+	w.syn.advanceView(si)
+	w.drain()
+	if w.vs.View() != 2 {
+		return fmt.Errorf("%s: a genuine TC for view 1 did not move the replica from view 1", u.scheme)
+	}
+	return nil
 }
 
 func c07Size(v *verifOut, search bool, q, t int) int {
@@ -2169,7 +2363,12 @@ func TestVerifC07(t *testing.T) {
 					v.Oracle(false, "harness-panic", fmt.Sprint(p), r.u.scheme)
 				}
 			}()
+			if err := c07Sanity(r.u, agg); err != nil {
+				t.Errorf("C07 harness sanity: %v", err)
+				return
+			}
 			r.boundaryBLS(search)
+			r.boundaryAgg()
 			r.blsPop = true
 			r.random(c07Size(v, search, 6, 120))
 		}()
@@ -2188,9 +2387,16 @@ func TestVerifC07(t *testing.T) {
 							v.Oracle(false, "harness-panic", fmt.Sprint(p), r.u.scheme)
 						}
 					}()
+					if err := c07Sanity(r.u, agg); err != nil {
+						t.Errorf("C07 harness sanity: %v", err)
+						return
+					}
 					r.boundary()
 					r.boundary2()
 					r.boundary3()
+					if leader == 2 {
+						r.boundaryAgg()
+					}
 					if leader == 2 {
 						r.exhaustive(v.Thorough() && !search)
 						r.random(c07Size(v, search, 90, 1500))
